@@ -89,12 +89,16 @@ structure Variant where
   demandUsageByName : Bool    -- Junction.add_demand registers a Pattern OBJECT under the pattern's name
   delNodeSweeps : Bool        -- NodeRegistry.__delitem__ releases the junction from EVERY pattern record
   fireKeepsShared : Bool      -- remove_fire_fighting_demand keeps usage / pattern that something else still refers to
+  leakChecksFirst : Bool      -- add_leak tests both control names before it adds the first control
+  sourceNodeMoves : Bool      -- the Source.node_name setter moves the node usage record
   deriving DecidableEq, Repr
 
-def coded : Variant := ⟨false, false, false, false, false, false, false, false, false, false, false, false⟩
-def repaired : Variant := ⟨true, true, true, true, true, true, true, true, true, true, true, true⟩
+def coded : Variant := ⟨false, false, false, false, false, false, false, false, false, false, false, false, false, false⟩
+def repaired : Variant := ⟨true, true, true, true, true, true, true, true, true, true, true, true, true, true⟩
+/-- the tree with the repairs of rounds 1-3 but without those of round 4 -/
+def round3 : Variant := ⟨true, true, true, true, true, true, true, true, true, true, true, true, false, false⟩
 /-- the tree with the first nine repairs (round 1) but without the three of round 2 -/
-def round1 : Variant := ⟨true, true, true, true, true, true, true, true, true, false, false, false⟩
+def round1 : Variant := ⟨true, true, true, true, true, true, true, true, true, false, false, false, false, false⟩
 
 /-! ### association lists (OrderedDict) and ordered sets -/
 
@@ -274,6 +278,7 @@ inductive Op
   | removeFire (node : Name)                                    -- junction.remove_fire_fighting_demand(wn)
   | addLeak (node : Name) (start end_ : Bool)                   -- node.add_leak(wn, area, start_time?, end_time?)
   | removeLeak (node : Name)                                    -- node.remove_leak(wn)
+  | setSourceNode (src node : Name)                             -- wn.get_source(src).node_name = node
   | addTank (name : Name) (curve : Option Name)
   | addReservoir (name : Name) (pat : Option Name)
   | addPipe (name a b : Name)
@@ -466,19 +471,20 @@ def leakCtl (n : Name) (isStart : Bool) : Name := 1000000 + 2 * n + (if isStart 
 
 /-- the control list after `add_leak`: up to two time controls that require the node; `add_control` raises ValueError for a
 name that exists — the second one possibly after the first was added (the list returned says so) -/
-def leakControls (c : List (Name × List Nat)) (n uid : Nat) (st en : Bool) : List (Name × List Nat) × Out :=
+def leakControls (v : Variant) (c : List (Name × List Nat)) (n uid : Nat) (st en : Bool) : List (Name × List Nat) × Out :=
+  if v.leakChecksFirst && ((st && AL.has c (leakCtl n true)) || (en && AL.has c (leakCtl n false))) then (c, .error) else
   let add (c : List (Name × List Nat)) (isStart : Bool) : List (Name × List Nat) × Out :=
     if AL.has c (leakCtl n isStart) then (c, .error) else (AL.set c (leakCtl n isStart) [uid], .ok)
   let r1 := if st then add c true else (c, .ok)
   if r1.2 ≠ .ok then r1 else if en then add r1.1 false else r1
 
 /-- `node.add_leak(wn, area, start_time, end_time)` -/
-def addLeak (s : Reg) (n : Name) (st en : Bool) : Reg × Out :=
+def addLeak (v : Variant) (s : Reg) (n : Name) (st en : Bool) : Reg × Out :=
   match AL.get? s.nodes n with
   | none => (s, .error)
   | some i =>
     if i.kind = .reservoir then (s, .error)
-    else ({ s with controls := (leakControls s.controls n i.uid st en).1 }, (leakControls s.controls n i.uid st en).2)
+    else ({ s with controls := (leakControls v s.controls n i.uid st en).1 }, (leakControls v s.controls n i.uid st en).2)
 
 /-- `node.remove_leak(wn)`: both controls are discarded (no error when absent) -/
 def removeLeak (s : Reg) (n : Name) : Reg × Out :=
@@ -604,6 +610,32 @@ def removeSource (v : Variant) (s : Reg) (name : Name) : Reg × Out :=
           tryStep s (removeUsage v · .node si.node (name, .source)) id
         (s4, .ok)
 
+/-- `wn.get_source(name).node_name = node` -/
+def setSourceNode (v : Variant) (s : Reg) (name node : Name) : Reg × Out :=
+  match AL.get? s.sources name with
+  | none => (s, .error)
+  | some si =>
+    let s1 := if v.sourceNodeMoves then addUsage (removeUsageT s .node si.node (name, .source)) .node node (name, .source) else s
+    ({ s1 with sources := AL.set s1.sources name { si with node := node } }, .ok)
+
+/-! Operations that bypass the registries (`TimeSeries.pattern_name = ...` on a demand entry / on a source's strength): the
+timeseries knows the pattern registry but not who owns it, so no usage record is moved.  They are NOT part of `Op`: the
+invariant does not survive them (Props/C14.lean, `raw_*`), which is recorded as a known finding. -/
+
+/-- `wn.get_node(n).demand_timeseries_list[idx].pattern_name = pat` -/
+def setDemandPatternRaw (s : Reg) (n : Name) (idx : Nat) (pat : Option Name) : Reg × Out :=
+  match AL.get? s.nodes n with
+  | none => (s, .error)
+  | some i =>
+    if i.kind ≠ .junction || idx ≥ i.demands.length then (s, .error)
+    else ({ s with nodes := AL.set s.nodes n { i with demands := i.demands.modify idx (fun d => (pat, d.2)) } }, .ok)
+
+/-- `wn.get_source(name).strength_timeseries.pattern_name = pat` -/
+def setSourcePatternRaw (s : Reg) (name : Name) (pat : Option Name) : Reg × Out :=
+  match AL.get? s.sources name with
+  | none => (s, .error)
+  | some si => ({ s with sources := AL.set s.sources name { si with pat := pat } }, .ok)
+
 def removeControl (s : Reg) (name : Name) : Reg × Out :=
   if AL.has s.controls name then ({ s with controls := AL.del s.controls name }, .ok) else (s, .error)
 
@@ -686,8 +718,9 @@ def step (v : Variant) (s : Reg) : Op → Reg × Out
   | .delDemand n i => delDemand s n i
   | .addFire n p => addFire s n p
   | .removeFire n => removeFire v s n
-  | .addLeak n a b => addLeak s n a b
+  | .addLeak n a b => addLeak v s n a b
   | .removeLeak n => removeLeak s n
+  | .setSourceNode n nd => setSourceNode v s n nd
   | .addTank n c => addTank v s n c
   | .addReservoir n p => addReservoir v s n p
   | .addPipe n a b => addPipe v s n a b
